@@ -145,6 +145,14 @@ class Session:
 
         try:
             secret = secret_list[0]
+            if tls_version != TlsVersion.TLS13:
+                # other lines for the same client random (e.g. EXPORTER_SECRET) are not key material for TLS <= 1.2
+                usable = [s for s in secret_list if s.label in ("CLIENT_RANDOM", "RSA")]
+                if len(usable) == 0:
+                    logging.error("Missing Secrets: no CLIENT_RANDOM or RSA line for this connection")
+                    self.can_decrypt = False
+                    return
+                secret = usable[0]
         except IndexError:
             logging.error(f"Missing Secrets\n"
                           f"Server IP: {self.binary_to_ip(self.server_ip)}\n"
